@@ -41,3 +41,60 @@ Proof.
     + symmetry. apply Iff; auto.
     + apply Iff; auto.
 Qed.
+
+(* ---------- the converse: symmetric connected input passes the checks ---------- *)
+Lemma reach_path n A u v : reach n A u v -> Components.path n A u v.
+Proof.
+  induction 1 as [u v (Hu & Hv & Hnz)|u|u w v _ IH1 _ IH2].
+  - eapply Components.path_step; [exact Hu|exact Hv|exact Hnz|apply Components.path_refl].
+  - apply Components.path_refl.
+  - eapply Proofs.Components.path_trans; eassumption.
+Qed.
+
+Theorem precheck_und_complete r n R0 :
+  is_und r = true -> is_conn r = true -> sym_on n R0 -> connected n R0 -> precheck r n R0 = true.
+Proof.
+  intros U C Hs Hc. unfold precheck. rewrite U, C. cbn [andb].
+  destruct (number_of_components n R0) as [m|] eqn:N.
+  - apply Nat.leb_le.
+    destruct (Proofs.Components.number_is_class_count n R0 m N) as (reps & Lr & Hlt & Hinj & _).
+    destruct (le_lt_dec m 1) as [Hm|Hm]; [exact Hm|exfalso].
+    assert (H01: 0%nat = 1%nat).
+    { apply Hinj; [lia|lia|]. apply reach_path. apply Hc; apply Hlt; lia. }
+    discriminate.
+  - exfalso. unfold number_of_components in N.
+    destruct (get_components n R0) as [[cs sz]|] eqn:G; [discriminate|].
+    apply Proofs.Components.asym_rejected in G. destruct G as (i & j & Hi & Hj & Hne). apply Hne. apply Hs; assumption.
+Qed.
+
+(* Rejected is exactly the failure of the input checks *)
+Lemma run_rejected_iff r n R0 itr D s0 : run_routine r n R0 itr D s0 = Rejected <-> precheck r n R0 = false.
+Proof.
+  unfold run_routine. destruct (precheck r n R0); cbn [negb]; split; try reflexivity; try discriminate.
+  intros H. exfalso.
+  destruct (if is_latt r then match s0 with DPerm p :: s1 => Some (p, tab 0 n n (conj_perm (of_list O p) R0), s1) | _ => None end
+            else Some (seq 0 n, R0, s0)) as [[[p R1] s1]|]; [|discriminate].
+  destruct (init_state _ n R1) as [st0 k]. destruct (Nat.ltb n 2); [discriminate|].
+  destruct (iterate _ _ _ _ _ _ _) as [[[st s2] tr]|]; discriminate.
+Qed.
+
+Theorem run_und_rejects r n R0 itr D s0 :
+  is_und r = true -> is_conn r = true -> ~ (sym_on n R0 /\ connected n R0) -> run_routine r n R0 itr D s0 = Rejected.
+Proof.
+  intros U C H. apply run_rejected_iff. destruct (precheck r n R0) eqn:P; [|reflexivity].
+  exfalso. apply H. apply (precheck_und_connected r n R0 U C P).
+Qed.
+
+Theorem run_und_accepts r n R0 itr D s0 :
+  is_und r = true -> is_conn r = true -> sym_on n R0 -> connected n R0 -> run_routine r n R0 itr D s0 <> Rejected.
+Proof.
+  intros U C Hs Hc H. apply run_rejected_iff in H. rewrite (precheck_und_complete r n R0 U C Hs Hc) in H. discriminate.
+Qed.
+
+(* randomize_graph_partial_und has no input check at all *)
+Lemma run_partial_never_rejected n A B maxswap s0 : run_partial_und n A B maxswap s0 <> Rejected.
+Proof.
+  unfold run_partial_und. destruct (init_state ELtriu1 n A) as [st0 k].
+  destruct (Nat.eqb k 0 && negb (Nat.eqb maxswap 0))%bool; [discriminate|].
+  destruct (until_swaps _ _ _ _ _ _ _) as [[[st s2] tr]|]; discriminate.
+Qed.
